@@ -5,10 +5,12 @@
 set -u
 PROP="$1"; DIR="$2"; NAME="$3"; shift 3; EXTRA="$*"
 WT=/tmp/wt_eval; LOG=/tmp/seed_logs/$NAME.log; : > "$LOG"
+# snapshot of the simulator sources, so that /verif/sim can be edited while this runs
+[ -n "${SEED_EVAL_NO_SYNC:-}" ] || rsync -a --delete /verif/sim/src/ /tmp/seedsim/src/
 cd $WT && git checkout -q -- . && rm -f tests/seed_demo.rs
 git apply "$DIR/patch.diff" >>"$LOG" 2>&1 || { echo "{\"name\":\"$NAME\",\"error\":\"patch does not apply\"}" > /tmp/seed_logs/$NAME.json; exit 1; }
 echo "== suite with patch" >>"$LOG"
-cargo test --workspace --no-fail-fast --offline >>"$LOG.suite" 2>&1; suite_rc=$?
+cargo test --workspace --no-fail-fast --offline >"$LOG.suite" 2>&1; suite_rc=$?
 suite_pass=$(grep -E "^test result: ok" "$LOG.suite" | awk '{s+=$4} END {print s+0}')
 suite_fail=$(grep -E "^test result: FAILED" "$LOG.suite" | wc -l)
 echo "== demo with patch" >>"$LOG"
